@@ -2,8 +2,8 @@
    Model: CloneDefs.v (identity-tagged entity trees, faithful transcription of the six clone() functions and of the
    index-stack re-creation of equivalences).  Proofs: CloneProofs.v.  `all_fixed` = the code with fixes/C11-*.diff;
    `pinned` = the tree before them; `original` = additionally before 84a9d17 (Reset order). *)
-From Coq Require Import List String ZArith Bool Arith Lia.
-From LC Require Import CloneDefs CloneProofs.
+From Coq Require Import List String ZArith QArith Bool Arith Lia.
+From LC Require Import CloneDefs CloneProofs CloneEqualsProofs.
 Import ListNotations.
 Local Open Scope string_scope.
 Local Open Scope nat_scope.
@@ -311,3 +311,58 @@ Print Assumptions C11_model_clone_equivalences_internal.
 Theorem C11_located_iff_enumerated : forall m p v, var_located_at m p = LVar v <-> In (p, v) (model_vars m).
 Proof. exact CloneProofs.var_located_at_in. Qed.
 Print Assumptions C11_located_iff_enumerated.
+
+(* ================================================================= 6. the clone equals the original (C10's equals) === *)
+(* CloneEqualsProofs.v: abs_* drops identities, parents and equivalences and maps the entities of CloneDefs to the
+   values of C10's model of equals() (EqualsDefs.v).  For every kind below the model abs (clone x) = abs x, hence by
+   C10's reflexivity (EqualsAsIs.equals_refl_asis: any flag setting of equals, any areNearlyEqual with neq_laws -- in
+   particular reflexive: no NaN-like value) equals (abs (clone x)) (abs x) = true, for every interpretation `num` of the
+   numeric tokens.  Premises: stored prefixes normalised (wf_units / wfd_var), an unset order is 0, a reset's variable
+   record agrees as a value with the component variable of the same identity (wfd_comp), coherent import records.
+   MODELS are not covered and cannot be: Model::clone() re-links each component variable's units BY NAME to the clone's
+   first units of that name (fixComponentUnits) while Variable::doEquals compares the Units objects deeply, so
+   abs (clone m) differs from abs m in v_units whenever a variable's own Units object (e.g. the bare object of
+   setUnits(name)) differs in content from that units -- the abstraction does no relinking, and the library says
+   equals = false there as well: known finding C11-equals-relinked-units (checked on the library by checks/c11.py). *)
+Theorem C11_clone_equals_original : forall (num : string -> QArith_base.Q) neq fl, EqualsSpec.neq_laws neq ->
+  (forall n i, EqualsDefs.eq_entity neq fl (EqualsDefs.EImportSource (abs_isrc (fst (clone_isrc n i)))) (EqualsDefs.EImportSource (abs_isrc i)) = true) /\
+  (forall fx n u, wf_units u ->
+     EqualsDefs.eq_entity neq fl (EqualsDefs.EUnits (abs_units num (fst (clone_units fx n u)))) (EqualsDefs.EUnits (abs_units num u)) = true) /\
+  (forall fx n v, wfd_var v ->
+     EqualsDefs.eq_entity neq fl (EqualsDefs.EVariable (abs_var num (fst (clone_variable fx n v)))) (EqualsDefs.EVariable (abs_var num v)) = true) /\
+  (forall fx n r, fx_order fx = true -> wfd_reset r ->
+     EqualsDefs.eq_entity neq fl (EqualsDefs.EReset (abs_reset num (fst (clone_reset fx n r)))) (EqualsDefs.EReset (abs_reset num r)) = true) /\
+  (forall n c, coherent (comp_imps c) -> wfd_comp num c ->
+     EqualsDefs.eq_entity neq fl (EqualsDefs.EComponent (abs_comp num (fst (clone_component all_fixed n c))))
+                                 (EqualsDefs.EComponent (abs_comp num c)) = true).
+Proof. exact CloneEqualsProofs.clone_equals_original. Qed.
+Print Assumptions C11_clone_equals_original.
+
+(* non-vacuity: a component with an import, a variable with a Units object with a unit child, and a reset pointing at
+   that variable satisfies the premises; the equality is also checked by computation with C10's equals as it is now *)
+Definition wu : units := {| u_oid := 12; u_parent := None; u_id := "uid"; u_name := "u"; u_imp := None; u_impref := "";
+                            u_defs := [{| ud_ref := "metre"; ud_prefix := "milli"; ud_exp := "2"; ud_mult := "1"; ud_id := "" |}] |}.
+Definition wv : variable := {| v_oid := 11; v_parent := Some 10; v_id := "vid"; v_name := "x"; v_init := "1"; v_iface := "public";
+                               v_units := Some wu; v_eqs := [] |}.
+Definition wr : reset := {| r_oid := 13; r_parent := Some 10; r_id := "rid"; r_order := 3%Z; r_order_set := true;
+                            r_var := Some wv; r_test := None; r_tv := "t"; r_tvid := ""; r_rv := "r"; r_rvid := "" |}.
+Definition wc : component :=
+  Comp 10 None "cid" "c" "enc" "math" (Some {| is_oid := 14; is_id := ""; is_url := "a.cellml"; is_model := None |}) "ref" [wv] [wr] [].
+
+Example C11_clone_equals_original_example :
+  coherent (comp_imps wc) /\ wfd_comp (fun _ => 1%Q) wc /\
+  EqualsDefs.equals_now (EqualsDefs.EComponent (abs_comp (fun _ => 1%Q) (fst (clone_component all_fixed 20 wc))))
+                        (EqualsDefs.EComponent (abs_comp (fun _ => 1%Q) wc)) = true.
+Proof.
+  split; [|split].
+  - intros i j [<-|[]] [<-|[]] _. reflexivity.
+  - constructor; [|constructor]. split.
+    + constructor; [|constructor]. intros u Hu. injection Hu as <-. constructor; [reflexivity | constructor].
+    + constructor; [|constructor]. split; [|split].
+      * split; [discriminate|]. split; [|intros v Hv; discriminate].
+        intros v Hv. injection Hv as <-. intros u Hu. injection Hu as <-. constructor; [reflexivity | constructor].
+      * intros v Hv w [<-|[]] _. injection Hv as <-. reflexivity.
+      * intros v Hv. discriminate.
+  - vm_compute. reflexivity.
+Qed.
+Print Assumptions C11_clone_equals_original_example.
